@@ -10,7 +10,7 @@ trap 'git -C /repo worktree remove --force "$W" >/dev/null 2>&1; rm -rf "$W"' EX
 S=/var/tmp/vscratch; mkdir -p $S/evidence; cp /verif/known_findings.jsonl $S/
 SEEDS="$@"; [ -z "$SEEDS" ] && SEEDS=$(ls /verif/seeded)
 for sd in $SEEDS; do
-  git -C "$W" checkout -q -- . ; git -C "$W" clean -qfd
+  git -C "$W" reset -q --hard HEAD; git -C "$W" clean -qfd
   if ! git -C "$W" apply "/verif/seeded/$sd/patch.diff" 2>/dev/null && ! git -C "$W" apply --3way "/verif/seeded/$sd/patch.diff" >/dev/null 2>&1; then
     echo "$sd: PATCH-DOES-NOT-APPLY"; continue
   fi
